@@ -1,11 +1,11 @@
-\* quick tier, device already initialised (both metadata copies durable); expected: no violation
-\* run: tlc -workers 8 -deadlock -noGenerateSpecTE -config MCWriteBehind_quick_warm.cfg MCWriteBehind.tla   (inside /verif/spec, private -metadir)
+\* seeded model mutation: SyncClear = FALSE with up to TWO torn units per crash image: EXPECTED CrashSafe violation (both journal slots torn)
+\* run: tlc -workers 8 -deadlock -noGenerateSpecTE -config MCWriteBehind_mut_SyncClear_tears2.cfg MCWriteBehind.tla   (inside /verif/spec, private -metadir)
 CONSTANTS
   DS = 16  DE = 19
   NK = 2  MaxGen = 2  MaxTs = 2  Sizes = {1, 2}  JMax = 1  MaxFlush = 2
   RetireAny = TRUE  GhostTails = TRUE  Tears = 2
   FreshStart = FALSE  InitSync = TRUE
-  SyncIntent = TRUE  SyncData = TRUE  SyncClear = TRUE
+  SyncIntent = TRUE  SyncData = TRUE  SyncClear = FALSE
   JournalAll = TRUE  SuccTest = TRUE  SyncMarkers = TRUE
 SPECIFICATION Spec
 INVARIANTS TypeOK CrashSafe Partition ExactAtQuiescence AckMeansDurable JournalClearAtAck LayoutAtAck MetaMatches
